@@ -138,6 +138,13 @@ impl Scratch {
         let dir = base.join(format!("stylua-verif-{}", std::process::id())).join(tag);
         let _ = std::fs::remove_dir_all(&dir);
         std::fs::create_dir_all(&dir).expect("cannot create scratch dir");
+        {
+            use std::os::unix::fs::PermissionsExt;
+            let _ = std::fs::set_permissions(&dir, std::fs::Permissions::from_mode(0o755));
+            if let Some(parent) = dir.parent() {
+                let _ = std::fs::set_permissions(parent, std::fs::Permissions::from_mode(0o755));
+            }
+        }
         Scratch { dir }
     }
     pub fn world_root(&self) -> PathBuf {
@@ -164,6 +171,23 @@ pub fn check_ancestors_clean(dir: &Path) -> Result<(), String> {
         cur = d.parent();
     }
     Ok(())
+}
+
+/// Copy the simulated binary to the scratch area (world-accessible, so that the unprivileged
+/// runs can execute it wherever /verif happens to live) and return the staged path.
+pub fn stage_binary(src: &Path) -> Result<PathBuf, String> {
+    use std::os::unix::fs::PermissionsExt;
+    let base = if Path::new("/dev/shm").is_dir() { PathBuf::from("/dev/shm") } else { std::env::temp_dir() };
+    let root = base.join(format!("stylua-verif-{}", std::process::id()));
+    let dir = root.join("bin");
+    std::fs::create_dir_all(&dir).map_err(|e| format!("stage {}: {e}", dir.display()))?;
+    for d in [&root, &dir] {
+        std::fs::set_permissions(d, std::fs::Permissions::from_mode(0o755)).map_err(|e| e.to_string())?;
+    }
+    let dst = dir.join("stylua-sim");
+    std::fs::copy(src, &dst).map_err(|e| format!("stage {} -> {}: {e}", src.display(), dst.display()))?;
+    std::fs::set_permissions(&dst, std::fs::Permissions::from_mode(0o755)).map_err(|e| e.to_string())?;
+    Ok(dst)
 }
 
 pub fn sim_binary() -> PathBuf {
